@@ -9,6 +9,7 @@ package doccomposer
 import (
 	"encoding/json"
 	"fmt"
+	"strconv"
 	"strings"
 
 	jsonpatch "github.com/evanphx/json-patch"
@@ -144,12 +145,38 @@ func validateJSONPatchPointers(jsonPatches jsonpatch.Patch) error {
 			return fmt.Errorf("json patch: '%s', '%s': a JSON pointer is empty or starts with '/'", from, path)
 		}
 
-		if strings.HasPrefix(path, from+"/") {
+		if isBelow(path, from) {
 			return fmt.Errorf("json patch: cannot move or copy '%s' into its own child '%s'", from, path)
 		}
 	}
 
 	return nil
+}
+
+// isBelow tells whether pointer denotes a location below parent. The library reads the reference tokens of
+// array elements as numbers, so "/a/0", "/a/00" and "/a/+0" are the same element.
+func isBelow(pointer, parent string) bool {
+	pointerTokens := strings.Split(pointer, "/")
+	parentTokens := strings.Split(parent, "/")
+
+	if len(pointerTokens) <= len(parentTokens) {
+		return false
+	}
+
+	for i, token := range parentTokens {
+		if token == pointerTokens[i] {
+			continue
+		}
+
+		a, errA := strconv.Atoi(token)
+		b, errB := strconv.Atoi(pointerTokens[i])
+
+		if errA != nil || errB != nil || a != b {
+			return false
+		}
+	}
+
+	return true
 }
 
 func isJSONPointer(pointer string) bool {
